@@ -8,9 +8,15 @@ and of one synthetic in-memory dictionary.  From the expansion this module gener
   * valid instances (minimal, maximal, minimal + each optional member at every
     nesting depth, two-item groups, every enumerator, canonical typed values,
     reversed top-level order, with header / trailer fields, ...)       -> validate() is True
-  * from the minimal and the maximal instance EVERY single-fault mutation at every
-    applicable position and nesting depth                              -> FIXMessageError
+  * from the minimal and the maximal instance (and from every item of an instance
+    with two items in every group) EVERY single-fault mutation at every applicable
+    position and nesting depth                                         -> FIXMessageError
   * permutations of the <components> declaration order                 -> same outcome
+
+Signatures: valid_rejected|<instance class>[|top/nested], valid_raised|...,
+fault_accepted|<fault class>|<top/nested>, fault_wrong_exception|<fault class>|<top/nested>,
+order_dependence|verdict_differs, order_dependence|dictionary_rejected_in_this_order.
+'top' = message body / header, 'nested' = inside a repeating group item (any depth).
 
 Oracle is three-valued: only what the property sentence states is demanded, see
 `ctx.assumptions` for what is left unconstrained.
@@ -127,7 +133,7 @@ def synthetic_xml():
         (5025, "NoTypedTop", "NUMINGROUP", ()), (5026, "TypedRef", "STRING", ()),
         (5027, "NoTypedNested", "NUMINGROUP", ()), (5028, "TypedRef2", "STRING", ()),
         (5029, "EnumMvs", "MULTIPLEVALUESTRING", ("a", "b", "c")), (5030, "EnumStr", "STRING", ("AA", "BB")),
-        (5031, "Unused", "STRING", ()), (5032, "BetaNote", "STRING", ()),
+        (5031, "Unused", "STRING", ()), (5032, "BetaNote", "STRING", ()), (5033, "NoDeltaItems", "NUMINGROUP", ()),
     ]
     n = 5100
     for name, typ in _SYN_TYPED:
@@ -171,6 +177,13 @@ def synthetic_xml():
    <field name='BetaFlag' required='Y'/>
    <component name='CompE' required='Y'/>
    <field name='BetaNote' required='N'/>
+  </message>
+  <message name='Delta' msgtype='UD' msgcat='app'>
+   <field name='TMvs' required='Y'/>
+   <group name='NoDeltaItems' required='N'>
+    <field name='TypedRef' required='Y'/>
+    <field name='TMvs' required='Y'/>
+   </group>
   </message>
   <message name='Gamma' msgtype='UC' msgcat='app'>
    <field name='GammaID' required='Y'/>
@@ -642,7 +655,8 @@ def header_faults(dc, mi, thorough):
         yield "missing_required_header_field", "top", hreq[:ni] + hreq[ni + 1:] + body + tr, m["name"]
         for cls, v in bad_values(m, thorough):
             yield cls, "top", hreq[:ni] + [[tag, v]] + hreq[ni + 1:] + body + tr, m["name"]
-    for ni, (tag, val) in enumerate(hall):
+    # optional header fields, enumerated ones first (simplest counterexample first)
+    for tag, val in sorted(hall, key=lambda n: (not hm[n[0]]["en"],)):
         m = hm[tag]
         if m["req"] == "N":
             for cls, v in bad_values(m, thorough):
@@ -926,14 +940,20 @@ def run(ctx):
     for did in DICT_IDS:
         get_dc(did, REPO)
     ctx.rule = (
-        "R10 (independent xml.etree walker, components inlined) expands every message type; per message: valid "
-        "instances (minimal, maximal, reversed top-level order, two-item groups, with header/trailer; thorough and "
-        "small dictionaries also: minimal + each optional member at every depth, every further enumerator, every "
-        "canonical typed value, maximal minus each optional member) and, from the minimal and the maximal instance "
-        "and every group item of the all-groups-two-items instance, every single-fault mutation at every member position of "
-        "every container (remove required field/group/group delimiter, value outside enum/type, empty value, field "
-        "as group, group as field, swap adjacent group members, add unknown / not-in-message / other-container tag); "
-        "then every verdict is recomputed under permutations of <components>. non-trivial = instance containing at "
+        "R10 (independent xml.etree walker, components inlined) expands every message type of FIX44.xml, "
+        "TT-FIX44.xml, schema_fix_simple.xml and one synthetic dictionary; per message: valid instances (minimal, "
+        "maximal, reversed top-level order, two-item groups, all-groups-two-items, with required / all header fields, "
+        "with optional trailer fields, minimal + each optional member at every depth, every further enumerator and "
+        "every canonical typed value [quick: at the first top-level and first nested position of each field; "
+        "thorough: at every position], two enumerators in an enumerated MultipleValueString, EndSeqNo=0; thorough: "
+        "maximal minus each optional member) and, from the minimal instance, the maximal instance and every group "
+        "item (first and second) of the all-groups-two-items instance, every single-fault mutation at every member "
+        "position of every container (remove required field / required group / group delimiter, value outside enum "
+        "/ outside type, empty value, field as group, group as field, swap adjacent group members, add unknown / "
+        "not-in-message / other-container tag; header: remove required field, bad value); then the verdicts of a "
+        "corpus are recomputed under permutations of <components> (all 720 / 6 for the synthetic / toy dictionary, "
+        "reversal + dependencies-first + dependencies-last + rotations + adjacent transpositions for FIX44.xml). "
+        "Faults of a base instance that does not validate are not judged. non-trivial = instance containing at "
         "least one repeating group")
     items = []
     for did in DICT_IDS:
